@@ -13,7 +13,7 @@ from . import core
 
 TIERS = {'quick': dict(depth=3, depthcfg=2, nsim=150, simlen=50, model_calls=2),
          'thorough': dict(depth=4, depthcfg=3, nsim=2000, simlen=50, model_calls=3)}
-CONFIGS = ['valid', 'empty', 'other', 'oldsig']
+CONFIGS = ['valid', 'empty', 'other', 'oldsig', 'oldrules']
 TABMODS = {'intel': 'ply_ia32_intel_20150429.py', 'att': 'ply_ia32_att_20150429.py'}
 REFMUL = 64          # observation reference = history id * REFMUL + position
 
@@ -112,7 +112,7 @@ def gen_simulated(n, length, seed, chk):
 class CacheDirs(object):
     """template directories: valid = written (and byte-compiled) by earlier processes of the repo under test;
     empty; other = each module name holds the other grammar's tables; oldsig = loadable tables of an older
-    revision of the grammar (two action bindings differ, other signature)"""
+    revision of the grammar (two action bindings differ, other signature); oldrules = tables PLY itself wrote for an older revision"""
 
     def __init__(self):
         self.base = os.path.join(core.scratch(), 'c12cache')
@@ -141,6 +141,15 @@ class CacheDirs(object):
             txt = txt.replace(old, new)
             txt = re.sub(r'^_lr_signature = .*$', "_lr_signature = b'an-older-revision-of-this-grammar'", txt, flags=re.M)
             open(os.path.join(s, TABMODS[g]), 'w').write(txt)
+        # oldrules = tables written by the PLY under test itself for an older revision of the grammars (one rule fewer each)
+        r = os.path.join(self.base, 'oldrules')
+        os.makedirs(r)
+        p = core.run_py([os.path.join(core.VERIF, 'vf', 'c12_oldrules.py'), core.REPO], env={'TMPDIR': r}, timeout=300)
+        if p.returncode != 0 or not all(os.path.exists(os.path.join(r, f)) for f in TABMODS.values()):
+            raise core.MachineryError('cannot build the old-rules PLY cache: ' + p.stderr[-1500:])
+        for f in os.listdir(r):
+            if f not in TABMODS.values():
+                shutil.rmtree(os.path.join(r, f)) if os.path.isdir(os.path.join(r, f)) else os.unlink(os.path.join(r, f))
         self.n = 0
 
     def fresh(self, cfg):
